@@ -98,6 +98,9 @@ def xn(
     """
 
     def intermediate_wrapper(_func: Callable[P, RVXN]) -> LazyExecNode[P, RVXN]:
+        # decorating an existing ExecNode (to give it other options) wraps its function, not the ExecNode itself
+        if isinstance(_func, LazyExecNode):
+            _func = _func.exec_function
         lazy_exec_node: LazyExecNode[P, RVXN] = LazyExecNode(
             exec_function=_func,
             priority=priority,
